@@ -262,6 +262,9 @@ fn cr3_case(c: &Cr3Case, obs: &mut Obs) -> CaseResult {
     set_prior(r3, prior);
     cpu().clear_log();
     let pframe = prior & ADDR_BITS;
+    // PCIDs are 12 bits wide: a value the constructor accepts is ORed into CR3[11:0] by the typed
+    // writes, so accepting anything >= 4096 would corrupt the frame bits / not read back
+    ensure_eq!(Pcid::new(pcid).is_ok(), pcid < 4096, "Pcid::new({}) accepted?", pcid);
     let pcid = pcid % 4096;
     let flags_arg = (low as u64) & 0x18;
     match step % 13 {
@@ -878,7 +881,7 @@ pub fn run(run: &mut Run) {
         "cr3_cr2_dr",
         "Cr3 read/read_raw/read_pcid/write/write_pcid/write_pcid_no_flush/write_raw/update/update_pcid/update_pcid_no_flush, Cr2 read/read_raw, Dr0-3 read/write, Dr6 read/read_raw on any prior u64; oracle: exact value written (frame|flags, frame|pcid, 1<<63|frame|pcid), typed views of the prior, round trips; non-trivial = prior has bits outside frame|PWT|PCD set",
         n,
-        (0u8..13, u64_edge(), phys(), any::<u16>(), any::<u16>()),
+        (0u8..13, u64_edge(), phys(), any::<u16>(), prop_oneof![6 => 0u16..4096, 1 => 4090u16..4100, 1 => any::<u16>()]),
         cr3_case,
     );
     let n = run.cases(500_000, 20_000_000);
